@@ -214,6 +214,7 @@ type loopRun struct {
 	pos   token.Pos
 	ghost map[string]Value // ghost variables visible to invariants ($i, $done, ...)
 	entry *State           // state at loop entry: old(x) in invariants
+	typeInvs []tiVar
 }
 
 func (vc *VC) loopSpec(ord string) *LoopSpec {
@@ -231,6 +232,11 @@ func (vc *VC) checkInvariants(lr *loopRun, st *State, kind string) {
 	if st == nil {
 		return
 	}
+	for _, tv := range lr.typeInvs {
+		if c, ok := vc.typeInvTerm(tv, st, lr.pos); ok {
+			vc.oblige(kind, "L"+lr.ord+".typeinv."+tv.obj.Name(), lr.pos, st.pc, c, "type invariant of "+tv.obj.Name()+": "+tv.clause.Src)
+		}
+	}
 	for i, inv := range lr.spec.Invariants {
 		env := vc.localEnv(st, lr.pos)
 		env.oldSt = lr.entry
@@ -246,7 +252,45 @@ func (vc *VC) checkInvariants(lr *loopRun, st *State, kind string) {
 	}
 }
 
+type tiVar struct {
+	obj    types.Object
+	clause Clause
+}
+
+// typeInvVars: loop-modified variables whose type has a `typeinv`; the
+// invariant is maintained by every loop automatically.
+func (vc *VC) typeInvVars(mods []types.Object) []tiVar {
+	var out []tiVar
+	for _, o := range mods {
+		n, ok := derefNamed(o.Type())
+		if !ok || n.Obj().Pkg() == nil {
+			continue
+		}
+		for _, ti := range vc.w.cs.TypeInvs {
+			if ti.Pkg == n.Obj().Pkg().Path() && ti.Type == n.Obj().Name() {
+				out = append(out, tiVar{o, ti.Clause})
+			}
+		}
+	}
+	return out
+}
+
+func (vc *VC) typeInvTerm(tv tiVar, st *State, pos token.Pos) (Term, bool) {
+	v, ok := st.vars[tv.obj].(Term)
+	if !ok {
+		return Term{}, false
+	}
+	env := vc.localEnv(st, pos)
+	env.vars["self"] = v
+	return vc.specBool(tv.clause.Expr, env), true
+}
+
 func (vc *VC) assumeInvariants(lr *loopRun, st *State) {
+	for _, tv := range lr.typeInvs {
+		if c, ok := vc.typeInvTerm(tv, st, lr.pos); ok {
+			vc.assume(st.pc, c)
+		}
+	}
 	for _, inv := range lr.spec.Invariants {
 		env := vc.localEnv(st, lr.pos)
 		env.oldSt = lr.entry
@@ -324,8 +368,9 @@ func (vc *VC) execFor(x *ast.ForStmt, st *State, label string) *State {
 		}
 	}
 	lr := &loopRun{ord: ord, spec: vc.loopSpec(ord), pos: x.Pos(), ghost: map[string]Value{}, entry: st.clone()}
-	vc.checkInvariants(lr, st, "inv-init")
 	mods := vc.modifiedVars(x.Body, x.Post, x.Cond)
+	lr.typeInvs = vc.typeInvVars(mods)
+	vc.checkInvariants(lr, st, "inv-init")
 	head := st.clone()
 	vc.havoc(mods, head, lr.spec.Modifies, x.Pos())
 	vc.assumeInvariants(lr, head)
@@ -374,6 +419,7 @@ func (vc *VC) execRange(x *ast.RangeStmt, st *State, label string) *State {
 		coll = vc.evalExpr(x.X, st)
 	}
 	mods := vc.modifiedVars(x.Body)
+	lr.typeInvs = vc.typeInvVars(mods)
 	bindKV := func(s *State, k, v Value) {
 		if x.Key != nil {
 			if id, ok := x.Key.(*ast.Ident); ok && id.Name != "_" {
